@@ -112,8 +112,8 @@ func c10MidHandshake(c *Ctx) {
 func c10DialMidHandshake(c *Ctx) {
 	c10settle()
 	for _, tr := range e2eTransports {
-		if tr.name != "tcp" && tr.name != "ipc" {
-			continue
+		if tr.name != "tcp" && tr.name != "ipc" && tr.name != "ws" {
+			continue // ws: the peer accepts the TCP connection and never answers the upgrade request
 		}
 		for _, asynch := range []bool{true, false} {
 			network, laddr, url := "tcp", "127.0.0.1:0", ""
@@ -125,9 +125,12 @@ func c10DialMidHandshake(c *Ctx) {
 			if err != nil {
 				continue
 			}
-			if tr.name == "ipc" {
+			switch tr.name {
+			case "ipc":
 				url = "ipc://" + laddr
-			} else {
+			case "ws":
+				url = "ws://" + ln.Addr().String() + "/x"
+			default:
 				url = "tcp://" + ln.Addr().String()
 			}
 			accepted := make(chan net.Conn, 4)
